@@ -453,6 +453,17 @@ func (c *compiler) evalLetStatement(node *ast.LetStatement) (interface{}, error)
 	return nil, nil
 }
 
+// fieldByName is rv.FieldByName(name) for a struct rv, except that a field promoted through an
+// embedded pointer that is nil is reported (ok == false) instead of panicking.
+func fieldByName(rv reflect.Value, name string) (f reflect.Value, ok bool) {
+	sf, found := rv.Type().FieldByName(name)
+	if !found {
+		return reflect.Value{}, true
+	}
+	f, err := rv.FieldByIndexErr(sf.Index)
+	return f, err == nil
+}
+
 func (c *compiler) evalIdentifier(node *ast.Identifier) (interface{}, error) {
 	if node.Callee != nil {
 		c, err := c.evalExpression(node.Callee)
@@ -473,7 +484,11 @@ func (c *compiler) evalIdentifier(node *ast.Identifier) (interface{}, error) {
 			return nil, fmt.Errorf("'%s' does not have a field or method named '%s' (%s)", node.Callee.String(), node.Value, node)
 		}
 
-		f := rv.FieldByName(node.Value)
+		f, ok := fieldByName(rv, node.Value)
+		if !ok {
+			// promoted through an embedded pointer that is nil: the path ends at a nil pointer
+			return nil, nil
+		}
 		if f.Kind() == reflect.Ptr {
 			if f.IsNil() {
 				return nil, nil
